@@ -606,3 +606,15 @@ PROPS["C40"] = dict(
     trusted_base=MIR_TB,
     mir=True,
 )
+
+
+PROPS["C44"]["functions"].append(
+    "ConsensusManagerBlueprint::check_non_decreasing_and_update_timestamps (the actor's field store -- actor_open_field, "
+    "field_read_typed, field_write_typed, field_close and the versioned payload wrappers -- is an environment stub holding "
+    "the two timestamp substates; native replay through a scripted MockApi with a real SBOR field store)")
+PROPS["C44"]["bounds"] = ("every i64 millisecond timestamp; for the update: every stored millisecond (i64) and minute (i32) "
+                          "value and every proposed time")
+PROPS["C44"]["outside"] = ("next_round / epoch_change (round and epoch counters, leader proposal history, validator "
+                           "statistics: key-value and index collections through the system API), get_current_time / "
+                           "compare_current_time readers")
+PROPS["C44"]["assumptions"] = ["the field store returns what was last written (environment stub)"]
